@@ -1,9 +1,21 @@
 import OW.Kernels.Basic
 import OW.Kernels.LumpedConstituent
-/- Kernel models of group Constituent (one owner; see /verif/AGENTS.md). Add imports above and entries to `models`. -/
+import OW.Kernels.ConstituentDecay
+import OW.Kernels.InstreamCoarseSediment
+import OW.Kernels.InstreamFineSediment
+import OW.Kernels.InstreamParticulateNutrient
+import OW.Kernels.StorageParticulateTrapping
+import OW.Kernels.StorageTrapAll
+import OW.Kernels.StorageDissolvedDecay
+/- Kernel models of group Constituent (one owner; see /verif/AGENTS.md). Add imports above and entries to `models`.
+The three storage/* constituent models (particulate trapping, trap-all, dissolved decay) are registered here too
+(property C12 owns them; Groups/Storage.lean holds the reservoir water-balance model). -/
 namespace OW.Kernels.Groups.Constituent
 open OW
 
-def models {α} [Num α] : List (KModel α) := [ Kernels.LumpedConstituent.model ]
+def models {α} [Num α] : List (KModel α) :=
+  [ Kernels.LumpedConstituent.model, Kernels.ConstituentDecay.model, Kernels.InstreamCoarseSediment.model,
+    Kernels.InstreamFineSediment.model, Kernels.InstreamParticulateNutrient.model,
+    Kernels.StorageParticulateTrapping.model, Kernels.StorageTrapAll.model, Kernels.StorageDissolvedDecay.model ]
 
 end OW.Kernels.Groups.Constituent
